@@ -1,5 +1,7 @@
 import RawPanelVerif.Lemmas.OutCaps
+import RawPanelVerif.Lemmas.OutItems
 import RawPanelVerif.Lemmas.OutUtf8
+import RawPanelVerif.Lemmas.StripIdem
 /-! Section-by-section lemmas for `encOut_sound` (C03): the reader on every kind of produced line. -/
 namespace RawPanelVerif.OutLemmas
 open RawPanelVerif RawPanelVerif.Bytes RawPanelVerif.MsgOut RawPanelVerif.EncOut RawPanelVerif.DecOut
@@ -21,9 +23,37 @@ theorem readInfo_text (o : OutOracle) (key v : Bytes) (hk : key ∈ textKeys) :
     readInfo o key v = .grammar [.info key (.text v)] := by
   unfold readInfo; rw [if_pos hk]
 
-theorem readInfo_payload (o : OutOracle) (key v : Bytes) (hk : key ∈ payloadKeys) :
+theorem readInfo_payload (o : OutOracle) (key v : Bytes) (hk : key ∈ payloadKeys) (hs : key ≠ asc "_panelTopology_svgbase") :
     readInfo o key v = .grammar (payloadEff key v) := by
-  unfold readInfo; rw [if_neg (payload_not_text key hk), if_pos hk]
+  unfold readInfo; rw [if_neg (payload_not_text key hk), if_pos hk, if_neg hs]
+
+theorem readInfo_svg (o : OutOracle) (v : Bytes) : readInfo o (asc "_panelTopology_svgbase") v = .grammar (svgEff v) := by
+  unfold readInfo; rw [if_neg (by decide), if_pos (by decide), if_pos rfl]
+
+/-- the Spec's own LF splitter is `strings.Split(·, "\n")` -/
+theorem splitLF_eq (s : Bytes) : Spec.Strip.splitLF s = splitOn 10 s := by
+  induction s with
+  | nil => rfl
+  | cons c cs ih =>
+    unfold Spec.Strip.splitLF splitOn
+    rw [ih]
+    by_cases hc : c = 10
+    · rw [if_pos hc, if_pos hc]
+    · rw [if_neg hc, if_neg hc]
+      cases splitOn 10 cs <;> rfl
+
+/-- the C07 normal form of the Spec is what the JSON / message flattening computes -/
+theorem normLines_eq_strip (s : Bytes) : normLines s = Strip.stripLineBreaks s := by
+  unfold normLines Strip.stripLineBreaks; rw [splitLF_eq]
+
+/-- the flattened text is in normal form (trimmed): true of every valid UTF-8 payload, and of every flat one -/
+def IdemOk (s : Bytes) : Prop := trimSpace (Strip.stripLineBreaks s) = Strip.stripLineBreaks s
+
+theorem normLines_strip (s : Bytes) (h : IdemOk s) : normLines (Strip.stripLineBreaks s) = normLines s := by
+  rw [normLines_eq_strip, normLines_eq_strip, Strip.strip_noLF _ (C07.strip_no_lf s), h]
+
+theorem idemOk_of_payloadOk (s : Bytes) (h : Spec.Out.payloadOk s = true) : IdemOk s :=
+  Strip.strip_trimmed s (by unfold Strip.validUtf8; rw [beq_iff_eq]; exact specValid_run _ s h)
 
 theorem readInfo_num (o : OutOracle) (key v : Bytes) (hk : key ∈ numKeys) :
     readInfo o key v = ofNum v (fun n => [.info key (.num n)]) := by
@@ -208,7 +238,7 @@ theorem itemOk_spec (s : Bytes) (h : itemOk s = true) : s ≠ [] ∧ (59 : UInt8
 theorem readItems_join (items : List Bytes) (hne : items ≠ []) (hall : items.all itemOk = true) :
     readItems (join 59 items) = items := by
   rw [List.all_eq_true] at hall
-  unfold readItems
+  rw [readItems_eq_filter]
   rw [splitOn_join 59 items hne (fun f hf => (itemOk_spec f (hall f hf)).2.1)]
   have h1 : items.map trimSpace = items := by
     rw [List.map_congr_left (g := id) (fun f hf => (itemOk_spec f (hall f hf)).2.2.2)]
@@ -277,50 +307,8 @@ theorem strip_flat (s : Bytes) (h : flatPayload s = true) : Strip.stripLineBreak
   rw [splitOn_nosep 10 s ((noLF_iff s).1 h.1)]
   simp [h.2]
 
-/-- `key=<flattened payload>` -/
-theorem R_payload (o : OutOracle) (key kq s : Bytes) (hkq : kq = key ++ [61]) (hk : key ∈ payloadKeys) (h : flatPayload s = true) :
-    R o [kq ++ Strip.stripLineBreaks s] = payloadEff key s := by
-  rw [strip_flat s h]
-  have h10 : (10 : UInt8) ∉ s := by
-    unfold flatPayload at h; simp only [Bool.and_eq_true] at h; exact (noLF_iff s).1 h.1
-  by_cases hs : s = []
-  · subst hs
-    rw [R_one, hkq, List.append_nil, E_kv_empty o key (payload_sub key hk)]
-    unfold payloadEff
-    have : content [] = [] := by decide
-    simp [this]
-  · rw [R_one, hkq, List.append_assoc, List.singleton_append, E_kv o key s (payload_sub key hk) hs h10,
-      readInfo_payload o key s hk]
-    rfl
-
 /-- the SVG payload: empty, or flat and ending in `>` -/
 def flatSvg (s : Bytes) : Bool := s == [] || (flatPayload s && Strip.endsWithGt s)
-
-theorem R_svg (o : OutOracle) (s : Bytes) (h : flatSvg s = true) :
-    R o [kSvgbase ++ Strip.stripLineBreaksSvg s] = payloadEff (asc "_panelTopology_svgbase") s := by
-  have hk : kSvgbase = asc "_panelTopology_svgbase" ++ [61] := by decide
-  unfold flatSvg at h
-  simp only [Bool.or_eq_true, beq_iff_eq, Bool.and_eq_true] at h
-  rcases h with h | ⟨hf, hg⟩
-  · subst h
-    have h1 : Strip.stripLineBreaksSvg [] = [32] := by decide
-    rw [h1, R_one, hk, List.append_assoc, List.singleton_append, E_kv o _ _ (by decide) (by decide) (by decide),
-      readInfo_payload o _ _ (by decide)]
-    have : content [32] = [] := by decide
-    have h2 : content [] = [] := by decide
-    simp [payloadEff, this, h2, LineClass.effects]
-  · have hflat := hf
-    unfold flatPayload at hf
-    simp only [Bool.and_eq_true, beq_iff_eq] at hf
-    have h10 : (10 : UInt8) ∉ s := (noLF_iff s).1 hf.1
-    have hs : s ≠ [] := by
-      intro e; subst e; exact absurd hg (by decide)
-    have h1 : Strip.stripLineBreaksSvg s = s := by
-      unfold Strip.stripLineBreaksSvg
-      rw [splitOn_nosep 10 s h10]
-      simp [Strip.svgPart, hf.2, hg]
-    rw [h1, R_one, hk, List.append_assoc, List.singleton_append, E_kv o _ s (by decide) hs h10, readInfo_payload o _ s (by decide)]
-    rfl
 
 /-! ### ASCII payloads: the C07 flattening keeps the white-space-free content, for any line structure -/
 
@@ -518,53 +506,59 @@ theorem content_stripSvg_ascii (s : Bytes) (ha : asciiStr s = true) : content (S
   rw [contentOf_ascii _ h1, contentOf_ascii s ha]
   exact flatten_filter s Strip.svgPart ha (fun l hl => (svgPart_filter l hl).1)
 
-theorem payloadEff_congr (key v v' : Bytes) (h : content v = content v') : payloadEff key v = payloadEff key v' := by
+theorem payloadEff_congr (key v v' : Bytes) (h : normLines v = normLines v') : payloadEff key v = payloadEff key v' := by
   unfold payloadEff; rw [h]
 
-/-- payload accepted by the theorems: ASCII with any line structure, or any bytes without LF / outer white space -/
+theorem svgEff_congr (v v' : Bytes) (h : content v = content v') : svgEff v = svgEff v' := by
+  unfold svgEff; rw [h]
+
+/-- payload accepted by the earlier theorems: ASCII with any line structure, or any bytes without LF / outer white space -/
 def okPayload (s : Bytes) : Bool := asciiStr s || flatPayload s
 def okSvg (s : Bytes) : Bool := asciiStr s || flatSvg s
 
-/-- `key=<flattened payload>` when the flattened text keeps the content of the field -/
-theorem R_payload_content (o : OutOracle) (key kq s t : Bytes) (hkq : kq = key ++ [61]) (hk : key ∈ payloadKeys)
-    (h10 : (10 : UInt8) ∉ t) (hc : content t = content s) : R o [kq ++ t] = payloadEff key s := by
+theorem normLines_nil : normLines [] = [] := by decide
+
+/-- `key=<flattened payload>` (JSON profiles, topology JSON, message texts) when the flattened text has the normal form
+of the field -/
+theorem R_payload_norm (o : OutOracle) (key kq s t : Bytes) (hkq : kq = key ++ [61]) (hk : key ∈ payloadKeys)
+    (hs : key ≠ asc "_panelTopology_svgbase") (h10 : (10 : UInt8) ∉ t) (hc : normLines t = normLines s) :
+    R o [kq ++ t] = payloadEff key s := by
   by_cases ht : t = []
   · subst ht
     rw [R_one, hkq, List.append_nil, E_kv_empty o key (payload_sub key hk)]
     unfold payloadEff
-    have : content [] = [] := by decide
-    rw [← hc, this]; simp
+    rw [← hc, normLines_nil]; simp
   · rw [R_one, hkq, List.append_assoc, List.singleton_append, E_kv o key t (payload_sub key hk) ht h10,
-      readInfo_payload o key t hk, ← payloadEff_congr key t s hc]
+      readInfo_payload o key t hk hs, ← payloadEff_congr key t s hc]
     rfl
 
-theorem R_payload2 (o : OutOracle) (key kq s : Bytes) (hkq : kq = key ++ [61]) (hk : key ∈ payloadKeys) (h : okPayload s = true) :
-    R o [kq ++ Strip.stripLineBreaks s] = payloadEff key s := by
-  unfold okPayload at h
-  simp only [Bool.or_eq_true] at h
-  rcases h with h | h
-  · exact R_payload_content o key kq s _ hkq hk (C07.strip_no_lf s) (content_strip_ascii s h)
-  · exact R_payload o key kq s hkq hk h
-
-theorem R_svg2 (o : OutOracle) (s : Bytes) (h : okSvg s = true) :
-    R o [kSvgbase ++ Strip.stripLineBreaksSvg s] = payloadEff (asc "_panelTopology_svgbase") s := by
-  unfold okSvg at h
-  simp only [Bool.or_eq_true] at h
-  rcases h with h | h
-  · exact R_payload_content o _ kSvgbase s _ (by decide) (by decide) (C07.stripSvg_no_lf s) (content_stripSvg_ascii s h)
-  · exact R_svg o s h
+/-- the SVG line when the flattened text keeps the white-space-free content of the field -/
+theorem R_svg_content (o : OutOracle) (s t : Bytes) (h10 : (10 : UInt8) ∉ t) (hc : content t = content s) :
+    R o [kSvgbase ++ t] = svgEff s := by
+  have hk : kSvgbase = asc "_panelTopology_svgbase" ++ [61] := by decide
+  by_cases ht : t = []
+  · subst ht
+    rw [R_one, hk, List.append_nil, E_kv_empty o _ (by decide)]
+    unfold svgEff
+    have : content [] = [] := by decide
+    rw [← hc, this]; simp
+  · rw [R_one, hk, List.append_assoc, List.singleton_append, E_kv o _ t (by decide) ht h10,
+      readInfo_svg o t, ← svgEff_congr t s hc]
+    rfl
 
 /-! ### payloads of the whole domain: valid UTF-8 (`payloadOk`), any line structure, multi-byte white space included -/
 
-/-- `key=<flattened payload>` under the guard of the C07 content theorem -/
-theorem R_payloadJ (o : OutOracle) (key kq s : Bytes) (hkq : kq = key ++ [61]) (hk : key ∈ payloadKeys) (h : Strip.JoinSafe s) :
+/-- `key=<flattened payload>` for every payload whose flattening is trimmed (⇐ valid UTF-8): the reader sees exactly the
+normal form of the field — interior white space included -/
+theorem R_payloadI (o : OutOracle) (key kq s : Bytes) (hkq : kq = key ++ [61]) (hk : key ∈ payloadKeys)
+    (hs : key ≠ asc "_panelTopology_svgbase") (h : IdemOk s) :
     R o [kq ++ Strip.stripLineBreaks s] = payloadEff key s :=
-  R_payload_content o key kq s _ hkq hk (C07.strip_no_lf s) (Strip.contentOf_strip s h)
+  R_payload_norm o key kq s _ hkq hk hs (C07.strip_no_lf s) (normLines_strip s h)
 
 /-- the SVG line, for EVERY byte string -/
 theorem R_svgAll (o : OutOracle) (s : Bytes) :
-    R o [kSvgbase ++ Strip.stripLineBreaksSvg s] = payloadEff (asc "_panelTopology_svgbase") s :=
-  R_payload_content o _ kSvgbase s _ (by decide) (by decide) (C07.stripSvg_no_lf s) (Strip.contentOf_stripSvg s)
+    R o [kSvgbase ++ Strip.stripLineBreaksSvg s] = svgEff s :=
+  R_svg_content o s _ (C07.stripSvg_no_lf s) (Strip.contentOf_stripSvg s)
 
 /-! ### network configuration -/
 theorem R_netCfg (o : OutOracle) (c : NetCfg) (h1 : o.netOfJson (o.jsonOfNet c) = some c) (h2 : noLF (o.jsonOfNet c) = true)
@@ -966,19 +960,12 @@ def flatMsg (m : OutMsg) : Bool :=
   optOk m.calibration okPayload && optOk m.defaultCalibration okPayload && optOk m.errorMsg okPayload &&
   optOk m.message okPayload
 
-theorem R_optPayload (o : OutOracle) (key kq : Bytes) (x : Option Bytes) (hkq : kq = key ++ [61]) (hk : key ∈ payloadKeys)
-    (h : optOk x okPayload = true) :
-    R o (optLine x (fun j => kq ++ Strip.stripLineBreaks j)) = optEff x (payloadEff key) := by
-  cases x with
-  | none => rfl
-  | some j => exact R_payload2 o key kq j hkq hk h
-
 theorem R_optPayloadU (o : OutOracle) (key kq : Bytes) (x : Option Bytes) (hkq : kq = key ++ [61]) (hk : key ∈ payloadKeys)
-    (h : optOk x payloadOk = true) :
+    (hs : key ≠ asc "_panelTopology_svgbase") (h : optOk x payloadOk = true) :
     R o (optLine x (fun j => kq ++ Strip.stripLineBreaks j)) = optEff x (payloadEff key) := by
   cases x with
   | none => rfl
-  | some j => exact R_payloadJ o key kq j hkq hk (joinSafe_of_payloadOk j h)
+  | some j => exact R_payloadI o key kq j hkq hk hs (idemOk_of_payloadOk j h)
 
 theorem R_optNum (o : OutOracle) (key kq : Bytes) (x : Option Nat) (hkq : kq = key ++ [61]) (hk : key ∈ numKeys)
     (h : optOk x inU32 = true) :
@@ -997,11 +984,11 @@ theorem msg_sound_full (o : OutOracle) (m : OutMsg) (h : inDomainMsg o m = true)
   unfold encMsgRaw effectsOfOut
   simp only [R_append]
   rw [R_flow, R_map o _ hmap, R_events o _ hev, R_registers o _ hreg,
-    R_optPayloadU o (asc "_burninProfile") kBurnin _ (by decide) (by decide) fburn,
-    R_optPayloadU o (asc "_calibrationProfile") kCalib _ (by decide) (by decide) fcal,
-    R_optPayloadU o (asc "_defaultCalibrationProfile") kDefCalib _ (by decide) (by decide) fdcal,
-    R_optPayloadU o (asc "ErrorMsg") kErrorMsg _ (by decide) (by decide) ferr,
-    R_optPayloadU o (asc "Msg") kMsg _ (by decide) (by decide) fmsg,
+    R_optPayloadU o (asc "_burninProfile") kBurnin _ (by decide) (by decide) (by decide) fburn,
+    R_optPayloadU o (asc "_calibrationProfile") kCalib _ (by decide) (by decide) (by decide) fcal,
+    R_optPayloadU o (asc "_defaultCalibrationProfile") kDefCalib _ (by decide) (by decide) (by decide) fdcal,
+    R_optPayloadU o (asc "ErrorMsg") kErrorMsg _ (by decide) (by decide) (by decide) ferr,
+    R_optPayloadU o (asc "Msg") kMsg _ (by decide) (by decide) (by decide) fmsg,
     R_optNum o (asc "_sleepTimer") kSleepTimer _ (by decide) (by decide) hst,
     R_optNum o (asc "_heartBeatTimer") kHeartBeat _ (by decide) (by decide) hhb,
     R_optNum o (asc "DimmedGain") kDimmedGain _ (by decide) (by decide) hdg]
@@ -1010,7 +997,7 @@ theorem msg_sound_full (o : OutOracle) (m : OutMsg) (h : inDomainMsg o m = true)
     | none => rfl
     | some p => rw [hx] at hpi; exact R_panelInfo o p hpi
   have e_topo : R o (optLines m.topology topologyLines) =
-      optEff m.topology (fun t => payloadEff (asc "_panelTopology_svgbase") t.svgbase ++ payloadEff (asc "_panelTopology_HWC") t.json) := by
+      optEff m.topology (fun t => svgEff t.svgbase ++ payloadEff (asc "_panelTopology_HWC") t.json) := by
     cases hx : m.topology with
     | none => rfl
     | some t =>
@@ -1019,7 +1006,7 @@ theorem msg_sound_full (o : OutOracle) (m : OutMsg) (h : inDomainMsg o m = true)
       simp only [optLines, optEff, topologyLines]
       rw [show [kSvgbase ++ Strip.stripLineBreaksSvg t.svgbase, kTopoHWC ++ Strip.stripLineBreaks t.json] =
         [kSvgbase ++ Strip.stripLineBreaksSvg t.svgbase] ++ [kTopoHWC ++ Strip.stripLineBreaks t.json] from rfl, R_append,
-        R_svgAll o _, R_payloadJ o (asc "_panelTopology_HWC") kTopoHWC _ (by decide) (by decide) (joinSafe_of_payloadOk _ ftopo.2)]
+        R_svgAll o _, R_payloadI o (asc "_panelTopology_HWC") kTopoHWC _ (by decide) (by decide) (by decide) (idemOk_of_payloadOk _ ftopo.2)]
   have e_net : R o (optLine m.netConfig (fun c => kNetCfg ++ o.jsonOfNet c)) =
       optEff m.netConfig (fun c => [.info (asc "_networkConfig") (.net c)]) := by
     cases hx : m.netConfig with
